@@ -8,12 +8,16 @@ package main
 //         result lists the implementation reported; plus the one-state predicates cursor_inv / sel_limit (op 905)
 // cx is observed through put(¦) steps.  At the end `accept`: stdout == model output() (903) and
 // == spec_output of the last observed state (904), exit status 0/1.
+// The --multi limit is part of the state: change-multi / change-multi(N) steps change it (session runs 906 / 907
+// return the limit afterwards), and the one-state predicate sel_limit is evaluated with the limit IN FORCE
+// according to the spec (so "multi-select switched off but lines still selected" is a violation by itself).
 
 import (
 	"encoding/json"
 	"errors"
 	"fmt"
 	"os"
+	"strconv"
 	"strings"
 	"sync"
 	"sync/atomic"
@@ -55,7 +59,7 @@ type c09Case struct {
 type c09ActInfo struct {
 	tag  int
 	cat  int // 0 edit, 1 cursor, 2 selection
-	argk int // 0 none, 1 string, 2 int
+	argk int // 0 none, 1 string, 2 int, 3 optional raw argument (change-multi)
 }
 
 var c09Actions = map[string]c09ActInfo{
@@ -70,6 +74,8 @@ var c09Actions = map[string]c09ActInfo{
 	"select-all": {34, 2, 0}, "deselect-all": {35, 2, 0}, "toggle-all": {36, 2, 0}, "clear-selection": {37, 2, 0},
 	// composite names (options.go parses them into two actions)
 	"toggle-down": {-1, 2, 0}, "toggle-up": {-2, 2, 0},
+	// the --multi limit itself
+	"change-multi": {41, 2, 3},
 }
 
 var c09EditNames, c09CursorNames, c09SelNames []string
@@ -81,7 +87,7 @@ func init() {
 		c09EditNames = append(c09EditNames, n)
 	}
 	c09CursorNames = []string{"up", "up", "down", "down", "first", "last", "pos", "page-up", "page-down", "half-page-up", "half-page-down"}
-	c09SelNames = []string{"toggle", "toggle", "toggle-in", "toggle-out", "toggle-down", "toggle-up", "select", "deselect", "select-all", "deselect-all", "toggle-all", "clear-selection"}
+	c09SelNames = []string{"toggle", "toggle", "toggle-in", "toggle-out", "toggle-down", "toggle-up", "select", "deselect", "select-all", "deselect-all", "toggle-all", "clear-selection", "change-multi"}
 	runners["C09"] = runC09
 }
 
@@ -94,6 +100,15 @@ func c09ActVals(a c09Act) []Val {
 		return []Val{L(I(29)), L(I(20))}
 	}
 	switch info.argk {
+	case 3:
+		// the argument as the user wrote it: none, a decimal integer (strconv.Atoi, as documented: NUM), anything else
+		if a.Arg == "" {
+			return []Val{L(I(info.tag), I(0), I(0))}
+		}
+		if n, err := strconv.Atoi(a.Arg); err == nil {
+			return []Val{L(I(info.tag), I(1), I(n))}
+		}
+		return []Val{L(I(info.tag), I(2), I(0))}
 	case 1:
 		return []Val{L(I(info.tag), Runes([]rune(a.Arg)))}
 	case 2:
@@ -105,6 +120,9 @@ func c09ActVals(a c09Act) []Val {
 }
 
 func c09ActText(a c09Act) string {
+	if c09Actions[a.Name].argk == 3 && a.Arg == "" {
+		return a.Name
+	}
 	if c09Actions[a.Name].argk != 0 {
 		return a.Name + "(" + a.Arg + ")"
 	}
@@ -183,6 +201,33 @@ func c09MaxItems(cfg c09Cfg) int {
 		return h
 	}
 	return h - 2
+}
+
+// the cfg.Multi encoding (-1 off, 0 unlimited, k) of a limit (0 off, 2147483647 unlimited, k)
+func c09MultiOfLimit(limit int) int {
+	switch {
+	case limit <= 0:
+		return -1
+	case limit == 2147483647:
+		return 0
+	}
+	return limit
+}
+
+// an argument of change-multi: mostly a limit (off, small, the one in force, no argument = unlimited), sometimes not a limit at all
+func c09GenLimitArg(r *RNG, cfg c09Cfg) string {
+	cur := c09MultiZ(cfg)
+	switch r.Intn(12) {
+	case 0, 1, 2:
+		return "0"
+	case 3, 4:
+		return ""
+	case 5:
+		return fmt.Sprint(cur) // the limit in force
+	case 6:
+		return Pick(r, []string{"-1", "-0", "x", "1x", "2.5", " 2", "99999999999999999999", "007", "2147483647", "2147483648"})
+	}
+	return fmt.Sprint(Pick(r, []int{1, 1, 2, 2, 3, 4, 5, 12, 300}))
 }
 
 func c09MultiZ(cfg c09Cfg) int {
@@ -308,6 +353,34 @@ type c09Session struct {
 	stats  *c09Stats
 	failed bool
 	lines  []string // current input lines (a reload alternates between cfg.Lines and cfg.Lines + one more line)
+	limit  int      // the --multi limit in force according to the spec (0 = multi-select off); changed by change-multi steps
+}
+
+// runModel / runSpec: one session run (ops 906 / 907) of the given events from the current state; the limit afterwards
+// is written back into the parameters.  false (after reporting) when the model fails.
+func (x *c09Session) runModel(k int, evs Val) bool {
+	mv := x.c.Model.Call(906, L(x.cfgV, x.model, evs))
+	if len(mv.L) != 2 {
+		x.report("corr", "corr:C09.model_error", k, "implementation went on", "model returned "+mv.String(), "")
+		return false
+	}
+	x.model = mv.L[0]
+	cv := append([]Val{}, x.cfgV.L...)
+	cv[0] = mv.L[1]
+	x.cfgV = L(cv...)
+	return true
+}
+
+func (x *c09Session) runSpec(evs Val) {
+	sv := x.c.Model.Call(907, L(x.spV, x.spec, evs))
+	if len(sv.L) != 2 {
+		return
+	}
+	x.spec = sv.L[0]
+	pv := append([]Val{}, x.spV.L...)
+	pv[0] = sv.L[1]
+	x.spV = L(pv...)
+	x.limit = int(sv.L[1].I)
 }
 
 const c09ExtraLine = "zz9 reloaded"
@@ -455,13 +528,10 @@ func (x *c09Session) runStep(k int) bool {
 	// --- model and spec predictions for the actions of this event
 	if st.Kind != "reload" {
 		evAll := append(append([]Val{}, acts...), L(I(38)), L(I(39)))
-		mv := x.c.Model.Call(901, L(x.cfgV, x.model, L(evAll...)))
-		if len(mv.L) != 1 {
-			x.report("corr", "corr:C09.model_error", k, "implementation went on", "model returned "+mv.String(), "")
+		if !x.runModel(k, L(evAll...)) {
 			return false
 		}
-		x.model = mv.L[0]
-		x.spec = x.c.Model.Call(902, L(x.spV, x.spec, L(evAll...)))
+		x.runSpec(L(evAll...))
 	}
 	// typed keys are not ordered with POSTs: wait until the query shows them
 	if st.Kind == "keys" {
@@ -521,13 +591,10 @@ func (x *c09Session) runStep(k int) bool {
 			}
 			// intermediate lists of a reload are timing dependent: normalise the cursor
 			up := L(L(I(40), c09Items(obs.Matches), I(1)), L(I(39)), L(I(22)), L(I(39)))
-			mv := x.c.Model.Call(901, L(x.cfgV, x.model, up))
-			if len(mv.L) != 1 {
-				x.report("corr", "corr:C09.model_error", k, "implementation went on", "model returned "+mv.String(), "")
+			if !x.runModel(k, up) {
 				return false
 			}
-			x.model = mv.L[0]
-			x.spec = x.c.Model.Call(902, L(x.spV, x.spec, up))
+			x.runSpec(up)
 			if err := s.PostSync("first"); err != nil {
 				x.report("spec", "no_crash", k, err.Error(), "alive", "")
 				return false
@@ -535,13 +602,10 @@ func (x *c09Session) runStep(k int) bool {
 		} else {
 			specBefore := c09ObsOfSpec(x.spec)
 			up := L(L(I(40), c09Items(obs.Matches), I(0)), L(I(39)))
-			mv := x.c.Model.Call(901, L(x.cfgV, x.model, up))
-			if len(mv.L) != 1 {
-				x.report("corr", "corr:C09.model_error", k, "implementation went on", "model returned "+mv.String(), "")
+			if !x.runModel(k, up) {
 				return false
 			}
-			x.model = mv.L[0]
-			x.spec = x.c.Model.Call(902, L(x.spV, x.spec, up))
+			x.runSpec(up)
 			// --track: where the cursor goes when its line left the list is not specified
 			if cfg.Track && specBefore.Current >= 0 {
 				still := false
@@ -564,9 +628,16 @@ func (x *c09Session) runStep(k int) bool {
 				tolerateSpec = "resync"
 			}
 		}
-		// the redraw that follows the list update is asynchronous
+		// the redraw that follows the list update (and clamps the cursor into the new list) is asynchronous: the cursor
+		// designates a line of the new list EVENTUALLY; what is seen after 5 s is judged as it is
 		time.Sleep(time.Millisecond)
-		obs, err = s.Get()
+		obs, _ = s.WaitFor(func(f *FzfState) bool {
+			return f.MatchCount == 0 || (f.Position >= 0 && f.Position < f.MatchCount && f.Current != nil)
+		}, 5*time.Second)
+		err = nil
+		if obs == nil {
+			obs, err = s.Get()
+		}
 	} else {
 		obs, err = s.Get()
 	}
@@ -590,6 +661,15 @@ func (x *c09Session) runStep(k int) bool {
 		fmt.Fprintf(os.Stderr, "step %d %v impl=%+v model=%+v spec=%+v\n", k, st, io, mo, so)
 	}
 	atomic.AddInt64(&x.stats.steps, 1)
+	for _, ac := range st.Acts {
+		if ac.Name == "change-multi" {
+			x.c.Rep.Count("change-multi")
+			if len(prevModel.Selected) > 0 {
+				x.c.Rep.Count("change-multi with lines selected")
+			}
+			break
+		}
+	}
 	key, _ := json.Marshal([]interface{}{cfg.Layout, cfg.Multi, cfg.Cycle, st, prevModel})
 	x.c.Rep.Eval(string(key), !mo.eq(prevModel))
 	// one-state predicates of the spec on the implementation's state
@@ -597,7 +677,7 @@ func (x *c09Session) runStep(k int) bool {
 	if obs.Current != nil {
 		cur = L(I(obs.Current.Index))
 	}
-	pv := x.c.Model.Call(905, L(I(c09MultiZ(cfg)), I(obs.MatchCount), I(io.Pos), cur, Ints(c09Idx(obs.Matches)), Ints(io.Selected)))
+	pv := x.c.Model.Call(905, L(I(x.limit), I(obs.MatchCount), I(io.Pos), cur, Ints(c09Idx(obs.Matches)), Ints(io.Selected)))
 	atomic.AddInt64(&x.stats.specChecks, 2)
 	if len(pv.L) == 2 {
 		if pv.L[0].I != 1 {
@@ -605,7 +685,7 @@ func (x *c09Session) runStep(k int) bool {
 			return false
 		}
 		if pv.L[1].I != 1 {
-			x.report("spec", "sel_limit", k, io, fmt.Sprintf("at most %d distinct selected lines", c09MultiZ(cfg)), "")
+			x.report("spec", "sel_limit", k, io, fmt.Sprintf("at most %d distinct selected lines (the --multi limit in force; 0 = multi-select is off)", x.limit), "")
 			return false
 		}
 	}
@@ -666,7 +746,7 @@ func c09Run(c *Ctx, cs c09Case, gen *RNG, nSteps int, stats *c09Stats) c09Case {
 	}
 	defer s.Close()
 	atomic.AddInt64(&stats.traces, 1)
-	x := &c09Session{c: c, cs: cs, s: s, stats: stats, lines: cfg.Lines}
+	x := &c09Session{c: c, cs: cs, s: s, stats: stats, lines: cfg.Lines, limit: c09MultiZ(cfg)}
 	{
 		var b strings.Builder
 		for _, l := range cfg.Lines {
@@ -717,7 +797,9 @@ func c09Run(c *Ctx, cs c09Case, gen *RNG, nSteps int, stats *c09Stats) c09Case {
 				break
 			}
 			if k >= len(x.cs.Steps) {
-				x.cs.Steps = append(x.cs.Steps, c09GenStep(gen, cfg, c09ObsOfModel(x.model), k)...)
+				gcfg := cfg
+				gcfg.Multi = c09MultiOfLimit(x.limit) // the limit of the moment
+				x.cs.Steps = append(x.cs.Steps, c09GenStep(gen, gcfg, c09ObsOfModel(x.model), k)...)
 			}
 		} else if k >= len(x.cs.Steps) {
 			break
@@ -823,6 +905,8 @@ func c09GenStep(r *RNG, cfg c09Cfg, cur c09Obs, k int) []c09Step {
 				}
 			case "pos":
 				a.Arg = fmt.Sprint(Pick(r, []int{0, 1, 2, 3, -1, -2, 7, cur.Count, cur.Count + 1, -cur.Count, -cur.Count - 1, r.Range(-310, 310)}))
+			case "change-multi":
+				a.Arg = c09GenLimitArg(r, cfg)
 			case "cancel":
 				if cur.Query == "" || cfg.NoInput {
 					continue // would abort
@@ -832,8 +916,42 @@ func c09GenStep(r *RNG, cfg c09Cfg, cur c09Obs, k int) []c09Step {
 		}
 	}
 	queryLen := len([]rune(cur.Query))
-	kind := r.Intn(20)
+	kind := r.Intn(22)
 	switch {
+	case kind >= 20:
+		// the limit changes while lines are selected: select some lines (switching multi-select on first if it is off),
+		// change the limit (off / lower / the same / higher / unlimited / not a limit), then act on the selection again under
+		// the new limit; every part is its own step, so that the state right after the change is looked at
+		steps := []c09Step{}
+		if cfg.Multi < 0 || r.Chance(1, 4) {
+			steps = append(steps, c09Step{Kind: "post", Acts: []c09Act{{Name: "change-multi", Arg: Pick(r, []string{"", "", "1", "2", "3", "5"})}}})
+		}
+		sel := c09Step{Kind: "post"}
+		switch r.Intn(3) {
+		case 0:
+			sel.Acts = []c09Act{{Name: "select-all"}}
+		case 1:
+			sel.Acts = []c09Act{{Name: "toggle"}, genAct(c09CursorNames), {Name: "toggle"}}
+		default:
+			sel.Acts = []c09Act{{Name: "pos", Arg: "1"}, {Name: "select"}, {Name: "pos", Arg: "2"}, {Name: "select"}, genAct(c09CursorNames), {Name: "toggle"}}
+		}
+		steps = append(steps, sel)
+		chg := c09Step{Kind: "post", Acts: []c09Act{{Name: "change-multi", Arg: c09GenLimitArg(r, cfg)}}}
+		if r.Chance(1, 3) {
+			// ... or in the middle of an action list
+			chg.Acts = append([]c09Act{genAct(c09SelNames)}, chg.Acts...)
+			chg.Acts = append(chg.Acts, genAct(c09SelNames))
+		}
+		steps = append(steps, chg)
+		if r.Chance(1, 2) {
+			steps = append(steps, c09Step{Kind: "post", Acts: []c09Act{genAct(c09CursorNames)}})
+		}
+		steps = append(steps, c09Step{Kind: "post", Acts: []c09Act{{Name: Pick(r, []string{"toggle", "select", "select-all", "toggle-all", "toggle-in", "deselect", "clear-selection"})}}})
+		if r.Chance(1, 2) {
+			steps = append(steps, c09Step{Kind: "post", Acts: []c09Act{{Name: "change-multi", Arg: c09GenLimitArg(r, cfg)}}},
+				c09Step{Kind: "post", Acts: []c09Act{{Name: Pick(r, []string{"toggle", "select-all", "toggle-all"})}}})
+		}
+		return steps
 	case kind == 0 && !cfg.NoInput && queryLen < 990:
 		// one rune per event: every typed rune starts its own search, and under --track the cursor follows its line
 		// through each intermediate list, so the harness lets every search finish before the next key
@@ -951,7 +1069,7 @@ func c09GenCfg(r *RNG) c09Cfg {
 }
 
 func runC09(c *Ctx) {
-	c.Rep.Rule = "live fzf sessions under a pty driven through --listen: random histories of editing / cursor / selection actions, typed keys and reloads over lists of 0/1/5/12/40/300 lines, heights 5-30 and full screen, three layouts, --multi off/1/3/unlimited, --cycle, --track, --no-input, --filepath-word, --disabled and live search; one evaluation = one synchronised step; non-trivial = the step changed the projected state; distinct by (layout, multi, cycle, step, state before)"
+	c.Rep.Rule = "live fzf sessions under a pty driven through --listen: random histories of editing / cursor / selection actions, typed keys and reloads over lists of 0/1/5/12/40/300 lines, heights 5-30 and full screen, three layouts, --multi off/1/3/unlimited and change-multi / change-multi(N) steps that switch multi-select on and off, lower, keep and raise the limit while lines are selected (sel_limit is evaluated with the limit in force), --cycle, --track, --no-input, --filepath-word, --disabled and live search; one evaluation = one synchronised step; non-trivial = the step changed the projected state; distinct by (layout, multi, cycle, step, state before)"
 	stats := &c09Stats{}
 	defer func() {
 		c.Rep.ImplTraces = int(stats.traces)
